@@ -333,12 +333,12 @@ theorem dot2_comm (H W : Nat) (x y : Img R) : dot2 H W x y = dot2 H W y x := by
 /-- **`FWD_J1.backward` is the adjoint of `fwd_j1`** (implementation models, symmetric mode): for symmetric
 odd-length level-1 filters, every even-sized image `x`, every low-pass cotangent `dl` and every six complex
 band cotangents, `⟨fwd_j1 x, (dl, dh)⟩ = ⟨x, backward(dl, dh)⟩`. -/
-theorem fwdJ1_backward_adjoint (s : R) (h0 h1 : List R) (hh0 : h0.length % 2 = 1) (hh1 : h1.length % 2 = 1)
+theorem fwdJ1_backward_adjoint_rect (s : R) (h0 h1 : List R) (hh0 : h0.length % 2 = 1) (hh1 : h1.length % 2 = 1)
     (hs0 : Symm h0) (hs1 : Symm h1) (x dl : Img R) (H W : Nat) (hH : 1 ≤ H) (hW : 1 ≤ W)
     (hx : Rect x (2*H) (2*W)) (hdl : Rect dl (2*H) (2*W)) (a b : Nat → Nat → Nat → R) :
     let dh : List (Cplx R) := (List.range 6).map fun k => (tab2 H W (a k), tab2 H W (b k))
     let F := fwdJ1 s true (prepFilt h0) (prepFilt h1) false x
-    ∃ hs y, F.2 = some hs ∧ FWD_J1_backward s true (prepFilt h0) (prepFilt h1) (H, W) dl (some dh) = some y ∧
+    ∃ hs y, F.2 = some hs ∧ FWD_J1_backward s true (prepFilt h0) (prepFilt h1) (H, W) dl (some dh) = some y ∧ Rect y (2*H) (2*W) ∧
       dot2 (2*H) (2*W) F.1 dl
         + ∑ k ∈ range 6, (dot2 H W (hs.getD k ([], [])).1 (dh.getD k ([], [])).1
                           + dot2 H W (hs.getD k ([], [])).2 (dh.getD k ([], [])).2)
@@ -404,12 +404,12 @@ theorem fwdJ1_backward_adjoint (s : R) (h0 h1 : List R) (hh0 : h0.length % 2 = 1
       rw [q3.1, q4.1, rect_width _ _ _ q3 h2H, rect_width _ _ _ q4 h2H]; simp
     rw [if_neg hshape]
     rw [rowfilter_model h1 L1 HI (2*W) h2W rHI.2, rowfilter_model h0 L0 LO (2*W) h2W rLO.2]
-  refine ⟨highsToOrientations s lh hl hh, _, by rw [hF], hB, ?_⟩
+  have wHI := alongW_rect h1 hh1 HI _ _ rHI
+  have wLO := alongW_rect h0 hh0 LO _ _ rLO
+  refine ⟨highsToOrientations s lh hl hh, _, by rw [hF], hB, iadd_rect _ _ _ _ wHI wLO, ?_⟩
   rw [hF]
   simp only []
   -- right-hand side: move every filter across the inner product
-  have wHI := alongW_rect h1 hh1 HI _ _ rHI
-  have wLO := alongW_rect h0 hh0 LO _ _ rLO
   rw [dot2_iadd _ _ x _ _ wHI wLO]
   rw [dot2_comm _ _ x (alongW (Cf h1) HI), alongW_self_adjoint h1 hh1 hs1 HI x _ _ rHI hx h2W, dot2_comm _ _ HI, ← hhi]
   rw [dot2_comm _ _ x (alongW (Cf h0) LO), alongW_self_adjoint h0 hh0 hs0 LO x _ _ rLO hx h2W, dot2_comm _ _ LO, ← hlo]
@@ -432,6 +432,20 @@ theorem fwdJ1_backward_adjoint (s : R) (h0 h1 : List R) (hh0 : h0.length % 2 = 1
   ring
 
 
+
+theorem fwdJ1_backward_adjoint (s : R) (h0 h1 : List R) (hh0 : h0.length % 2 = 1) (hh1 : h1.length % 2 = 1)
+    (hs0 : Symm h0) (hs1 : Symm h1) (x dl : Img R) (H W : Nat) (hH : 1 ≤ H) (hW : 1 ≤ W)
+    (hx : Rect x (2*H) (2*W)) (hdl : Rect dl (2*H) (2*W)) (a b : Nat → Nat → Nat → R) :
+    let dh : List (Cplx R) := (List.range 6).map fun k => (tab2 H W (a k), tab2 H W (b k))
+    let F := fwdJ1 s true (prepFilt h0) (prepFilt h1) false x
+    ∃ hs y, F.2 = some hs ∧ FWD_J1_backward s true (prepFilt h0) (prepFilt h1) (H, W) dl (some dh) = some y ∧
+      dot2 (2*H) (2*W) F.1 dl
+        + ∑ k ∈ range 6, (dot2 H W (hs.getD k ([], [])).1 (dh.getD k ([], [])).1
+                          + dot2 H W (hs.getD k ([], [])).2 (dh.getD k ([], [])).2)
+        = dot2 (2*H) (2*W) x y := by
+  intro dh F
+  obtain ⟨hs, y, h1, h2, _, h3⟩ := fwdJ1_backward_adjoint_rect s h0 h1 hh0 hh1 hs0 hs1 x dl H W hH hW hx hdl a b
+  exact ⟨hs, y, h1, h2, h3⟩
 
 /-- **`INV_J1.backward` is the adjoint of `inv_j1`** (both inputs requiring grad): it runs `fwd_j1` with the
 synthesis filters, and `⟨inv_j1(ll, highs), dy⟩ = ⟨(ll, highs), fwd_j1_g(dy)⟩` is `fwdJ1_backward_adjoint` read
